@@ -3,5 +3,5 @@ SPECIFICATION FairSpec
 CONSTANTS
   Variant = "ok"
   MaxP = 7
-  Scripts <- CatQuick
+  Scripts <- CatQuickMC
 PROPERTY Termination
